@@ -925,6 +925,119 @@ func (pc *progressCtx) lexerLoops() {
 			} else {
 				pc.s.OK(pc.rule, key+" progress", pos, "every pass through the loop calls readChar (directly or through a function that always does)")
 			}
+			// one read per test for the end: the loop's exit condition is evaluated once per pass, so a pass that can
+			// read twice reads past the end when the first read reaches it — the position then lies beyond the input
+			// and the slice the reader returns (input[start:pos]) is out of range
+			{
+				var reads []ssa.Instruction
+				for b := range li.body {
+					for _, in := range b.Instrs {
+						if c, isC := in.(ssa.CallInstruction); isC {
+							if sc := c.Common().StaticCallee(); sc != nil && (pc.lexCI.callPoint(c) || pc.lexCI.may[sc]) {
+								reads = append(reads, in)
+							}
+						}
+					}
+				}
+				twice := ""
+				for _, r1 := range reads {
+					// forward search from just after r1, inside the loop, not through the header
+					seen := map[*ssa.BasicBlock]bool{}
+					type item struct {
+						b    *ssa.BasicBlock
+						from int
+					}
+					start := 0
+					for i, x := range r1.Block().Instrs {
+						if x == r1 {
+							start = i + 1
+						}
+					}
+					stack := []item{{r1.Block(), start}}
+					for len(stack) > 0 && twice == "" {
+						it := stack[len(stack)-1]
+						stack = stack[:len(stack)-1]
+						for i := it.from; i < len(it.b.Instrs); i++ {
+							for _, r2 := range reads {
+								if it.b.Instrs[i] == r2 {
+									// a second read is fine when the character it moves off is known: a test made after the first read
+									known := false
+									for _, f := range expandFacts(factsAt(r2.Block())) {
+										ci, isI := f.Cond.(ssa.Instruction)
+										if !isI || !li.body[ci.Block()] {
+											continue // a test made before the loop says nothing about this pass
+										}
+										// the test must look at the character the second read moves off: no read between the test and it
+										// within one pass: forward from a to b without taking an edge back into the header
+										before := func(a, b ssa.Instruction) bool {
+											idx := func(x ssa.Instruction) int {
+												for i, y := range x.Block().Instrs {
+													if y == x {
+														return i
+													}
+												}
+												return -1
+											}
+											if a.Block() == b.Block() && idx(a) < idx(b) {
+												return true
+											}
+											seenB := map[*ssa.BasicBlock]bool{}
+											st := append([]*ssa.BasicBlock{}, a.Block().Succs...)
+											for len(st) > 0 {
+												x := st[len(st)-1]
+												st = st[:len(st)-1]
+												if seenB[x] || x == li.header || !li.body[x] {
+													continue
+												}
+												seenB[x] = true
+												if x == b.Block() {
+													return true
+												}
+												st = append(st, x.Succs...)
+											}
+											return false
+										}
+										fresh := true
+										for _, rx := range reads {
+											if rx != r2 && rx != ssa.Instruction(ci) && before(ci, rx) && before(rx, r2) {
+												fresh = false
+											}
+										}
+										if fresh {
+											if kn, val := evalCond(f.Cond, pc.lexEval(0), r2.Block()); kn && val != f.Holds {
+												known = true // with char == 0 this branch would not have been taken
+											}
+										}
+									}
+									if !known {
+										twice = fmt.Sprintf("%s and then %s", m.InstrPos(r1), m.InstrPos(r2))
+									}
+								}
+							}
+						}
+						if it.from == 0 {
+							if seen[it.b] {
+								continue
+							}
+							seen[it.b] = true
+						}
+						for _, sc := range it.b.Succs {
+							if sc == li.header || !li.body[sc] || seen[sc] {
+								continue
+							}
+							stack = append(stack, item{sc, 0})
+						}
+					}
+					if twice != "" {
+						break
+					}
+				}
+				if twice != "" {
+					pc.s.Violation(pc.rule, key+" reads once per end test", pos, "lexer loop in %s can read twice in one pass (%s) while its end-of-input test is made once per pass: if the first read reaches the end of the input the second one moves the position beyond it, and slicing the input up to that position panics (e.g. an unterminated string ending in a backslash)", fnKey(fn), twice)
+				} else if len(reads) > 0 {
+					pc.s.OK(pc.rule, key+" reads once per end test", pos, "no pass through the loop reads a second character without a new test that excludes the end of input")
+				}
+			}
 			// exit at end of input: l.char == 0
 			ok, wit := exitsInState(li, pc.lexEvalAfter(0, li))
 			if ok {
